@@ -62,7 +62,7 @@ func init() { Register(c03{}) }
 func (c03) ID() string       { return "C03" }
 func (c03) New() interface{} { return &C03Case{} }
 func (c03) Rule() string {
-	return "each run: a valid file (goalign's own writer on a generated alignment of 1-8 rows x 1-130 columns, or a corpus file with comments, TAXA/unsupported blocks, mark-up lines, CRLF line ends, several Phylip alignments, partition definitions) hit by 0-3 faults (truncation, structural-byte overwrite, bit flip, line loss / duplication / swap, header-number rewrite, token splice from another file, NUL / non-UTF8 byte, lone CR, read error at an offset), parsed by one of 13 parser entry points with a duplicate-name policy and a forced or automatic alphabet, delivered by the simulated stream in seeded fragments (1 byte, 2-7, per line, 4096, all, mixed; empty reads; EOF with or after the last data). Plus exhaustive sweeps: every prefix of every corpus file and every number token rewritten to each of 11 special values (both tiers), every structural byte at every offset (thorough). Distinct = distinct (parser, options, stream content, error offset); non-trivial = at least one fault changed the stream or a read error lies inside it, and the stream is not empty."
+	return "each run: a valid file (goalign's own writer on a generated alignment of 1-8 rows x 1-130 columns, or a corpus file with comments, TAXA/unsupported blocks, mark-up lines, CRLF line ends, several Phylip alignments, partition definitions; or a Nexus DATA block / a partition file assembled from the grammar: FORMAT options in any combination, one- and multi-byte gap / missing / match symbols, NCHAR in characters or bytes, bounds and steps around 0, the length and the largest integers) hit by 0-3 faults (truncation, structural-byte overwrite, bit flip, line loss / duplication / swap, header-number rewrite, token splice from another file, NUL / non-UTF8 byte, lone CR, read error at an offset), parsed by one of 13 parser entry points with a duplicate-name policy and a forced or automatic alphabet, delivered by the simulated stream in seeded fragments (1 byte, 2-7, per line, 4096, all, mixed; empty reads; EOF with or after the last data); one multi-auto run in ten runs the call, goalign's parser goroutine, every read and the close of the stream and the consumer under the seeded goroutine scheduler and reads the error field again once every goroutine has finished. Plus exhaustive sweeps: every prefix of every corpus file and every number token rewritten to each of 11 special values (both tiers), every structural byte at every offset (thorough). Distinct = distinct (parser, options, stream content, error offset); non-trivial = at least one fault changed the stream or a read error lies inside it, and the stream is not empty."
 }
 
 var c03Parsers = []string{"fasta", "fasta-unalign", "phylip", "phylip-strict", "phylip-multi", "phylip-strict-multi", "nexus", "clustal", "stockholm", "partition", "auto", "auto-strict", "multi-auto"}
